@@ -77,6 +77,9 @@ def norm (f : Gff.Feature) : Gff.Feature := { f with attrs := some (normAttrs f.
 /-- names of regions and inline sequences: non-empty, no ASCII white space, trimmed -/
 def nameOK (s : Bytes) : Bool := !s.isEmpty && !s.any isAsciiSpace && trimmed s
 
+/-- description of an inline sequence: single line, trimmed (possibly empty) -/
+def descOK (d : Bytes) : Bool := !d.contains 10 && trimmed d
+
 /-- sequence letters: ASCII, no white space -/
 def lettersOK (s : Bytes) : Bool := !s.isEmpty && s.all (fun c => c < 128 && !isAsciiSpace c)
 
